@@ -43,7 +43,7 @@ func (c14) Describe() CheckInfo {
 		},
 		RealCode:       []string{"gopatch main()/mainCmd.Run, patchRunner, patch.Parse/File.Apply, internal/engine (compiled program, dotAssoc maps), go/token.FileSet shared across files and calls"},
 		Stubs:          []string{"package os", "path/filepath walk", "io/ioutil", "choice of which caller goroutine runs next (simrt scheduler)"},
-		RequiredProbes: []string{"cli-grouped-vs-solo", "cli-permutation", "cli-unparseable-neighbour", "cli-repeat-identical", "hist-call", "hist-failing-call", "hist-result-held", "sched-run", "sched-overlap", "sched-preempt-sweep", "sched-concurrent-parse", "sched-pct", "sched-two-switch-site-uniform", "race-log-checked"},
+		RequiredProbes: []string{"cli-grouped-vs-solo", "cli-permutation", "cli-unparseable-neighbour", "cli-repeat-identical", "hist-call", "hist-failing-call", "hist-result-held", "sched-run", "sched-overlap", "sched-preempt-sweep", "sched-concurrent-parse", "sched-pct", "sched-two-switch-site-uniform", "race-log-checked", "sched-same-filename", "cli-respelled-duplicate"},
 	}
 }
 
@@ -227,10 +227,16 @@ func c14GenHist(r *world.PRNG, seed uint64, i int) *Case {
 	pool = append(pool, []byte("package broken\n\nfunc {{{\n"), NonMatchingFile(r, r.Pick(Styles), ""))
 	other := c14Pool[r.Intn(len(c14Pool))]
 	pool = append(pool, other.srcs[r.Intn(len(other.srcs))])
+	pool = append(pool, append(append([]byte(nil), ps.srcs[r.Intn(len(ps.srcs))]...), []byte("\n\nfunc tail() {\n\tif {{{\n")...))
 	n := r.Range(2, 12)
+	sameName := r.Chance(1, 3)
 	for j := 0; j < n; j++ {
 		k := r.Intn(len(pool))
-		c.Calls = append(c.Calls, APICall{Filename: fmt.Sprintf("s%d.go", k), Src: pool[k]})
+		name := fmt.Sprintf("s%d.go", k)
+		if sameName {
+			name = "same.go"
+		}
+		c.Calls = append(c.Calls, APICall{Filename: name, Src: pool[k]})
 	}
 	return c
 }
@@ -244,12 +250,24 @@ func c14GenSched(r *world.PRNG, seed uint64, i int, tier string) *Case {
 	if r.Chance(1, 3) {
 		pool = append(pool, []byte("package broken\n\nfunc {{{\n"))
 	}
+	if r.Chance(1, 3) {
+		// a source that fails to parse only at its very end
+		pool = append(pool, append(append([]byte(nil), ps.srcs[r.Intn(len(ps.srcs))]...), []byte("\n\nfunc tail() {\n\tif {{{\n")...))
+	}
+	sameName := r.Chance(1, 3) // every caller passes the same file name
+	if sameName {
+		c.Extra["same_filename"] = "1"
+	}
 	K := r.Range(2, 4)
 	for t := 0; t < K; t++ {
 		nc := r.Range(1, 3)
 		for j := 0; j < nc; j++ {
 			k := r.Intn(len(pool))
-			c.Calls = append(c.Calls, APICall{Task: t, Filename: fmt.Sprintf("t%d_s%d.go", t, k), Src: pool[k]})
+			name := fmt.Sprintf("t%d_s%d.go", t, k)
+			if sameName {
+				name = "shared.go"
+			}
+			c.Calls = append(c.Calls, APICall{Task: t, Filename: name, Src: pool[k]})
 		}
 	}
 	if r.Chance(1, 4) {
@@ -379,9 +397,14 @@ func c14EvalCLI(env *Env, c *Case) []Violation {
 		for a, b := range perm {
 			gc.Targets[a] = c.Targets[b]
 		}
-		switch pr.Intn(5) {
+		switch pr.Intn(6) {
 		case 0:
 			gc.Targets = []string{"."}
+		case 5:
+			// the same file named a second time in another spelling
+			t := gc.Targets[pr.Intn(n)]
+			gc.Targets = append(gc.Targets, pr.Pick([]string{ProjDir + "/" + t, "./" + t, ProjDir + "/./" + t, ProjDir}))
+			env.Probe("cli-respelled-duplicate")
 		case 1:
 			gc.Targets = append(gc.Targets, gc.Targets[pr.Intn(n)]) // duplicate
 		case 2:
@@ -827,6 +850,9 @@ func c14EvalSched(env *Env, c *Case) []Violation {
 		<-done[t]
 	}
 	env.Probe("sched-run")
+	if c.Extra["same_filename"] == "1" {
+		env.Probe("sched-same-filename")
+	}
 	if !env.Quiet {
 		env.Stats.Runs++
 		env.Stats.Steps += res.Yields
